@@ -165,6 +165,21 @@ func main {
 	println(len(s))
 }
 `},
+	// output depends on the configured word size / alignment (cfg.WaSizes)
+	{"sizes_n", "n.wa", `
+import "unsafe"
+
+type Rec :struct {
+	tag: u8
+	big: i64
+	w:   i32
+}
+
+func main {
+	r: Rec
+	println(unsafe.Sizeof(r), unsafe.Alignof(r.big), unsafe.Offsetof(r.big), unsafe.Offsetof(r.w))
+}
+`},
 	{"fmt_i", "i.wa", `
 import "fmt"
 
@@ -188,7 +203,7 @@ var baseCfg = func() *api.Config {
 	return c
 }()
 
-var cfgVariants = []string{"default", "clone:js", "clone:unknown"}
+var cfgVariants = []string{"default", "clone:js", "clone:unknown", "sizes:4/8"}
 
 func cfgFor(v int) *api.Config {
 	switch v {
@@ -199,6 +214,11 @@ func cfgFor(v int) *api.Config {
 	case 2:
 		c := baseCfg.Clone()
 		c.TargetOS = "unknown"
+		return c
+	case 3:
+		// the sizes the wa command line itself configures
+		c := api.DefaultConfig()
+		c.WaSizes.WordSize, c.WaSizes.MaxAlign = 4, 8
 		return c
 	}
 	return api.DefaultConfig()
@@ -213,6 +233,15 @@ var taggedProgs = func() []int {
 		}
 	}
 	return r
+}()
+
+var sizesProg = func() int {
+	for i, p := range corpus {
+		if p.Name == "sizes_n" {
+			return i
+		}
+	}
+	panic("sizes_n")
 }()
 
 var apis = []string{"RunCode", "BuildFile", "FormatCode", "GetCodeSyntax"}
